@@ -533,6 +533,19 @@ func (w *World) NewTwin(id hotstuff.ID) *Member {
 	return m
 }
 
+// NewMemberWith builds an additional member for an existing id (same key) with extra runtime options
+// (e.g. core.WithKauriTree); it knows every member's public key.
+func (w *World) NewMemberWith(id hotstuff.ID, extra ...core.RuntimeOption) *Member {
+	saved := w.Opts
+	w.Opts = append(append([]core.RuntimeOption(nil), saved...), extra...)
+	m := w.newMember(id, w.Keys[id])
+	w.Opts = saved
+	for _, o := range w.Members {
+		m.Cfg.AddReplica(&hotstuff.ReplicaInfo{ID: o.ID, PubKey: w.Keys[o.ID].Public(), Metadata: o.Cfg.ConnectionMetadata()})
+	}
+	return m
+}
+
 // Connect makes every member know every member's public key (and BLS proof of possession).
 func (w *World) Connect() {
 	for _, m := range w.Members {
